@@ -2,7 +2,7 @@
 # tools/keep_seed.sh <Cxx> <name> "<needs>" "<pytest files to re-run>"  -- validate an agent's seeded change in /tmp/wt/<Cxx> and store it
 set -u
 id=$1; name=$2; needs=$3; tests=${4:-}
-wt=/tmp/wt/$id; out=/verif/seeded/$name
+wt=${5:-/tmp/wt/$id}; out=/verif/seeded/$name
 mkdir -p "$out"
 cd "$wt" || exit 2
 git diff > "$out/patch.diff"
